@@ -11,6 +11,11 @@ Every call is judged against private copies of its arguments taken AT CALL ENTRY
 are never read) and every array argument is compared bit-for-bit after the call (purity clause).
 The driver adds the relations between executions (scaling, zero prepending, nesting, monotonicity, se pair vs scalar,
 object with a history vs fresh object, same call repeated after another input of the same shape).
+Round 3 (checklist items 22-27): copy.copy / copy.deepcopy / pickle round trips of AccSignals (plain and Cluster members) in
+every cache state with reads, mutators, attribute assignments and refused operations on the copy and on the original in both
+orders (_run_protocol); assignments through the public attribute names and operations the clean code refuses also inside the
+ordinary histories; f(A); f(B); f(A) with B another draw of another shape at non-default options; fractions and thresholds at
+the edges of their admissible range; silent and strictly one-signed records in every container.
 """
 import itertools
 import traceback
@@ -58,7 +63,23 @@ RULE = ('a case = (record, dt, 3-5 fraction pairs incl. a nested pair and someti
         'bracketed duration on gen.special_scale records (1e-300..1e-165, 1e155..1e300, 1e-150 next to 1e150 in one record, '
         'ripple on a baseline, counts above 2**24) with thresholds scaled with the record; significant durations on records '
         'whose largest |a| is 1e-150 or 1e150 exactly or anywhere in 1e-150..1e-100 / 1e100..1e150. Exhaustive part: every sequence over {-2..2} of length 1..5 (quick) / 1..6 '
-        '(thorough) as float64 / int64 / int8 in plain, read-only, strided and reversed layout. distinct = digest of the '
+        '(thorough) as float64 / int64 / int8 in plain, read-only, strided and reversed layout. Round 3 (items 22-27): '
+        'protocol cases (2 of 15) - an AccSignal (from array / list / tuple / read-only / strided data, 25 % a Cluster member) '
+        'cold or warm after 1-3 reads (Fourier / smoothed spectrum, velocity, displacement, peaks, response spectrum, Stockwell '
+        'memo, generate_*_stats, the duration functions) is copied by copy.copy, copy.deepcopy or pickle protocol 0-5; 2-4 steps '
+        'on the copy or the original (mutators - only value-rebinding ones after copy.copy, judged once the buffers are '
+        'separate -, reads, assignment of values / dt / npts / time / label / response_times / smooth_fa_* as list, tuple, '
+        'ndarray, int list with 1, 2, 3, n, n+-k entries, refused operations: add_series / add_signal with wrong length, '
+        'time step or type, filter corners above Nyquist / reversed, ragged reset, bad options; reset to a record with nan / '
+        'inf of the same, shorter or longer length followed by an in-place repair by the caller); after each step the '
+        'monitored calls run on the touched object, the other one and the touched one again. The same assignment / refused / '
+        'non-finite / silent operations are also mutators of the ordinary histories. f(A); f(B); f(A) additionally with B '
+        'another draw of length n, n/2, n-1, n+1, 2n+3 at a random fraction pair, se form, custom measure, threshold and '
+        'through the deprecated aliases. 25 % of the cases get a fraction pair at the edges of 0 < start < end < 1 (start '
+        '1e-12..1e-3, end 1-1e-12..1-2**-53, bands 1e-6 / 0.1 % wide, bounds within 1e-9..1e-3 relative of the normalised '
+        'cumulative squares of two samples); 35 % get thresholds one ulp below some |a_i|, within 1e-12..1e-3 of it, and '
+        '5e-324 / 1e-300 / the smallest normal. Container cases: 12 % silent (all-zero) and 18 % strictly one-signed records in '
+        'each of the 14 containers. distinct = digest of the '
         'complete case; non-trivial = record with a non-zero sample.')
 ASSUMPTIONS = ['NaN/inf-free real records (numpy arrays of any real dtype, lists, tuples) or AccSignal objects',
                '0 <= start < end <= 1 (the boundary values 0 and 1 are judged by the same definition), threshold >= 0, '
@@ -81,6 +102,14 @@ ASSUMPTIONS = ['NaN/inf-free real records (numpy arrays of any real dtype, lists
                'through their real part for the cumulative measures when |imag| <= 1e-9 max|real|, else not judged',
                'failures of the history operations themselves (filters on too short records, np.trapz in generate_*_stats, '
                'in-place corrections on read-only data) are observations, not C10 verdicts',
+               'records with nan / inf samples stay outside the quantifier (calls on them are observations), also when an '
+               'object holds them temporarily; the object is judged again once its values are finite',
+               'pickling / copying failures of an object are not C10 verdicts (observed); a shallow copy is judged only after '
+               'a rebinding operation separated the value buffers',
+               'assignments that the clean classes reject (dt, npts, time) or ignore (values) are driven, not judged by '
+               'themselves: the calls that follow are judged against the object\'s values and dt at call entry',
+               'edge thresholds are rounded to the record dtype for float32 records; edge fractions keep the two-sided band '
+               '(4(n+8)u relative to the bound), so a bound closer than that to a sample is accepted either way',
                'custom measures need not be monotone: the definition is applied literally to the measure\'s own output; a '
                'non-positive final value leaves no sample strictly inside (outside the statement)',
                'oracle vf/oracles/durations.py is correct']
@@ -104,7 +133,11 @@ _MIN_QUICK = {   # ~50 % of what a normal quick run reaches (minimum over seeds 
     'brac.complex-record(fas2signal) judged': 2000,
     'rel.se-pair-difference==scalar': 51000, 'rel.scale-pow2-invariant': 8500, 'rel.scale-any-invariant': 1200,
     'rel.zero-prepend-shift': 4500, 'rel.nested-fractions': 14000, 'rel.brac-monotone-threshold': 17000,
-    'rel.brac-joint-scale-invariant': 14000, 'rel.history==fresh': 13000, 'rel.repeat-after-other-input': 2700}
+    'rel.brac-joint-scale-invariant': 14000, 'rel.history==fresh': 13000, 'rel.repeat-after-other-input': 2700,
+    # round 3 (checklist items 22-27)
+    'rel.copy-protocol==fresh': 43000, 'rel.after-assignment==fresh': 9500, 'rel.after-refused-op==fresh': 8400,
+    'rel.repeat-after-other-draw(any shape)': 1900, 'sig.edge-fraction(within 1e-3 of 0|1|each other)': 1300,
+    'brac.threshold within 1e-9 of some |a_i| (not equal)': 4000, 'brac.silent-record->(None,None)/0': 850}
 _THOROUGH_FACTOR = {}
 MIN_EVALS = {'quick': _MIN_QUICK, 'thorough': {k: v * _THOROUGH_FACTOR.get(k, 10) for k, v in _MIN_QUICK.items()}}
 
@@ -350,6 +383,8 @@ def check_sig(ctx, name, call, arr, dt, s, e, se, measure, result, im_vals=None)
             ctx.observe('sig: ambiguous (knife-edge) samples accepted two-sided')
         if s == 0 or e == 1:
             ctx.ok('sig.boundary-fraction(start=0|end=1)')
+        if 0 < s <= 1e-3 or 1 - 1e-3 <= e < 1 or e - s <= 1e-3:
+            ctx.ok('sig.edge-fraction(within 1e-3 of 0|1|each other)')
 
 
 def check_brac(ctx, name, call, arr, dt, threshold, se, result):
@@ -375,6 +410,8 @@ def check_brac(ctx, name, call, arr, dt, threshold, se, result):
         ctx.check(okk, name + '.none-exceeds->(None,None)/0', lambda: _witness(call, result),
                   '%s(threshold=%r, se=%r): no |a_i| exceeds (max %r) but got %r'
                   % (call['fn'], th, se, max(abs(v) for v in vals), result))
+        if okk and not np.any(arr):
+            ctx.ok('brac.silent-record->(None,None)/0')
         return
     f, l = ref
     if se:
@@ -396,6 +433,10 @@ def check_brac(ctx, name, call, arr, dt, threshold, se, result):
             ctx.ok('brac.threshold==|a_i| decided strictly')
         if f == l:
             ctx.ok('brac.single-exceeder(se=%s)' % bool(se))
+        if th > 0 and arr.dtype.kind == 'f':
+            d = np.abs(np.abs(arr) - th)
+            if np.any((d > 0) & (d <= 1e-9 * th)):
+                ctx.ok('brac.threshold within 1e-9 of some |a_i| (not equal)')
 
 
 def _guard(fn):
@@ -995,13 +1036,25 @@ def _near_knife(arr, dt, s, e, measure, im_vals=None):
     return r.n_amb > 0 or not r.definite
 
 
-def _repeat_relation(ctx, case, what, f_first, f_other):
-    """Two different inputs of the same shape back to back; the first result is re-checked after the second call."""
+PERM, DRAW = 'rel.repeat-after-other-input', 'rel.repeat-after-other-draw(any shape)'
+
+
+def _others(case, x):
+    """The second inputs B of f(A); f(B); f(A) with the clause each is counted under."""
+    out = [(_other_record(x), PERM)]
+    if case.get('other') is not None:
+        out.append((_other_for(case, x), DRAW))
+    return out
+
+
+def _repeat_relation(ctx, case, what, f_first, f_other, clause=PERM):
+    """Two different inputs back to back (B a permutation of A, or another draw of the same / another shape); the first result is
+    re-checked after the second call: third == first, and the held first result is still what it was."""
     r1 = _call(f_first)
     held = repr(r1)
     _call(f_other)
     r1b = _call(f_first)
-    _rel(ctx, _same(r1, r1b) and (r1 is _FAIL or repr(r1) == held), 'rel.repeat-after-other-input', case, what,
+    _rel(ctx, _same(r1, r1b) and (r1 is _FAIL or repr(r1) == held), clause, case, what,
          'first call gave %s, the same call after another input of the same shape gave %r (held result now %r)'
          % (held, _show(r1b), _show(r1)))
 
@@ -1134,14 +1187,14 @@ def _run_case(eqsig, ctx, case):
             # default and at non-default fractions, both se forms, the deprecated alias as well
             s, e = fracs[int(case.get('repeat_j', 0)) % len(fracs)]
             se_r = bool(case.get('repeat_se', True))
-            x2 = _other_for(case, x)
-            _repeat_relation(ctx, case, 'calc_sig_dur_vals(start=%r,end=%r,se=%r)' % (s, e, se_r),
-                             lambda: im.calc_sig_dur_vals(xc, dt_arg, start=s, end=e, se=se_r),
-                             lambda: im.calc_sig_dur_vals(x2, dt_arg, start=s, end=e, se=se_r))
-            if case.get('other') is not None:
-                _repeat_relation(ctx, case, 'calc_significant_duration(start=%r,end=%r)' % (s, e),
-                                 lambda: im.calc_significant_duration(xc, dt_arg, s, e),
-                                 lambda: im.calc_significant_duration(x2, dt_arg, s, e))
+            for x2, cl in _others(case, x):
+                _repeat_relation(ctx, case, 'calc_sig_dur_vals(start=%r,end=%r,se=%r)' % (s, e, se_r),
+                                 lambda: im.calc_sig_dur_vals(xc, dt_arg, start=s, end=e, se=se_r),
+                                 lambda: im.calc_sig_dur_vals(x2, dt_arg, start=s, end=e, se=se_r), cl)
+                if cl == DRAW:
+                    _repeat_relation(ctx, case, 'calc_significant_duration(start=%r,end=%r)' % (s, e),
+                                     lambda: im.calc_significant_duration(xc, dt_arg, s, e),
+                                     lambda: im.calc_significant_duration(x2, dt_arg, s, e), cl)
 
     # ------------------------------------------------------------------------------------------ object level
     if not case.get('object_level', True):
@@ -1305,23 +1358,25 @@ def _object_block(eqsig, ctx, case, asig, dt, fracs, measures, full, compare_fre
              'public observables changed: %s' % bad)
     # process-wide state: another object of the same shape in between, first result re-checked afterwards
     if case.get('repeat') and len(ths) > 1:
-        other = eqsig.AccSignal(_other_for(case, cur), dt_obj)
         s, e = fracs[int(case.get('repeat_j', 0)) % len(fracs)]
         se_r = bool(case.get('repeat_se', True))
         th = ths[(1 + int(case.get('repeat_j', 0))) % len(ths)]
-        if not case.get('brac_only'):
-            _repeat_relation(ctx, case, 'calc_sig_dur(start=%r,end=%r,se=%r)' % (s, e, se_r),
-                             lambda: im.calc_sig_dur(asig, start=s, end=e, se=se_r), lambda: im.calc_sig_dur(other, start=s, end=e, se=se_r))
-            if case.get('other') is not None and measures:
-                imf = MEASURES[measures[0]]
-                _repeat_relation(ctx, case, 'calc_sig_dur(im=%s,start=%r,end=%r,se=%r)' % (measures[0], s, e, se_r),
-                                 lambda: im.calc_sig_dur(asig, start=s, end=e, im=imf, se=se_r),
-                                 lambda: im.calc_sig_dur(other, start=s, end=e, im=imf, se=se_r))
-        _repeat_relation(ctx, case, 'calc_brac_dur(threshold=%r,se=%r)' % (th, se_r),
-                         lambda: im.calc_brac_dur(asig, th, se=se_r), lambda: im.calc_brac_dur(other, th, se=se_r))
-        if case.get('other') is not None:
-            _repeat_relation(ctx, case, 'calc_bracketed_duration(threshold=%r)' % th,
-                             lambda: im.calc_bracketed_duration(asig, th), lambda: im.calc_bracketed_duration(other, th))
+        for rec2, cl in _others(case, cur):
+            other = eqsig.AccSignal(rec2, dt_obj)
+            if not case.get('brac_only'):
+                _repeat_relation(ctx, case, 'calc_sig_dur(start=%r,end=%r,se=%r)' % (s, e, se_r),
+                                 lambda: im.calc_sig_dur(asig, start=s, end=e, se=se_r),
+                                 lambda: im.calc_sig_dur(other, start=s, end=e, se=se_r), cl)
+                if cl == DRAW and measures:
+                    imf = MEASURES[measures[0]]
+                    _repeat_relation(ctx, case, 'calc_sig_dur(im=%s,start=%r,end=%r,se=%r)' % (measures[0], s, e, se_r),
+                                     lambda: im.calc_sig_dur(asig, start=s, end=e, im=imf, se=se_r),
+                                     lambda: im.calc_sig_dur(other, start=s, end=e, im=imf, se=se_r), cl)
+            _repeat_relation(ctx, case, 'calc_brac_dur(threshold=%r,se=%r)' % (th, se_r),
+                             lambda: im.calc_brac_dur(asig, th, se=se_r), lambda: im.calc_brac_dur(other, th, se=se_r), cl)
+            if cl == DRAW:
+                _repeat_relation(ctx, case, 'calc_bracketed_duration(threshold=%r)' % th,
+                                 lambda: im.calc_bracketed_duration(asig, th), lambda: im.calc_bracketed_duration(other, th), cl)
 
 
 def _show(r):
